@@ -431,6 +431,12 @@ func (rs *RelationService) CreateTable(r *Relation, tableName string) error {
 		return ErrTableAlreadyExist
 	}
 
+	// make sure every catalog row describing the new table can be stored
+	// before anything is changed
+	if err := validateCatalogRows(r, tableName); err != nil {
+		return err
+	}
+
 	pg, err := rs.createPage()
 	if err != nil {
 		return err
@@ -443,6 +449,39 @@ func (rs *RelationService) CreateTable(r *Relation, tableName string) error {
 	}
 
 	return rs.fs.flushPages()
+}
+
+// validateCatalogRows checks that the page table row and the schema table rows
+// of a new table can be encoded and fit in a page cell.
+func validateCatalogRows(r *Relation, tableName string) error {
+	tuples := []Tuple{{
+		Relation: &pageTableSchema,
+		Vals: map[string]interface{}{
+			"table_name":  tableName,
+			"file_offset": int64(0),
+		},
+	}}
+	for _, fd := range r.Fields {
+		tuples = append(tuples, Tuple{
+			Relation: &schemaTableSchema,
+			Vals: map[string]interface{}{
+				"table_name":   tableName,
+				"field_name":   fd.Name,
+				"field_type":   int64(fd.DataType),
+				"field_length": fd.Len,
+			},
+		})
+	}
+	for _, tuple := range tuples {
+		buf, err := tuple.Encode()
+		if err != nil {
+			return err
+		}
+		if err := checkRowSizeLimit(buf.Bytes()); err != nil {
+			return err
+		}
+	}
+	return nil
 }
 
 func (rs *RelationService) createPage() (*btreeNode, error) {
